@@ -194,7 +194,7 @@ struct ListWorld : World {
             size_t fsz = 0; void *fp = nullptr;
             if (!mt) { InSut s; fp = b->getat(b, 0, &fsz, false); }
             int a2 = api;
-            if (api == 1 && !(fp && fsz >= 1)) a2 = 0;
+            if (api == 1 && !(fp && fsz >= 1 && ((const char *)fp)[fsz - 1] == '\0')) a2 = 0;   // documented only for elements pushed with pushstr()
             if (api == 2 && !(fp && fsz == sizeof(int64_t)) && fp) a2 = 0;
             if (a2 == 2) {
                 int64_t v;
@@ -231,21 +231,29 @@ struct ListWorld : World {
         case L_TOARRAY: {
             size_t sz = (size_t)-1; void *p;
             { InSut s; p = kind == K_GROW ? qg->toarray(qg, &sz) : l->toarray(l, &sz); }
-            if (!p) return R_fail(num((long long)sz));
+            if (!p) return R_fail();     // what *size holds after a refused call is not specified
             return take(p, sz, true, x, "toarray");
         }
         case L_TOSTRING: {
             // expected length from the list's own elements (a C-string reader cannot know it when NULs are embedded)
-            size_t len = 0;
+            // "string representation" is only well defined for elements that are C strings (no NUL, or exactly one, at the end)
+            size_t len = 0; bool stringlike = true;
             if (!mt) {
                 Bookkeeping bk;
-                for (size_t i = 0; i < n; i++) { size_t es = 0; void *ep; { InSut s; ep = b->getat(b, (int)i, &es, false); } if (ep && es) len += es - ((((char *)ep)[es - 1] == 0) ? 1 : 0); }
+                for (size_t i = 0; i < n; i++) {
+                    size_t es = 0; void *ep; { InSut s; ep = b->getat(b, (int)i, &es, false); }
+                    if (!(ep && es)) continue;
+                    const void *z = memchr(ep, 0, es);
+                    if (z && (const char *)z != (const char *)ep + es - 1) stringlike = false;
+                    len += es - (z ? 1 : 0);
+                }
             }
             char *p;
             { InSut s; p = kind == K_GROW ? qg->tostring(qg) : l->tostring(l); }
             if (!p) return R_fail();
-            if (mt) len = strlen(p);    // concurrent programs only add NUL-free elements
-            return take(p, len + 1, true, x, "tostring");
+            if (mt || !stringlike) len = strlen(p);    // concurrent programs only add NUL-free elements
+            Result r = take(p, len + 1, true, x, "tostring");
+            return stringlike ? r : R_ok("unspecified");
         }
         case L_WALK: case L_LOCKEDWALK: {
             bool newmem = op.d & NEWMEM;
@@ -323,7 +331,7 @@ Result ListModel::apply(const Op &op) {
     int api = op.d & 7; int kind = w->kind;
     switch (op.k) {
     case L_ADD: {
-        if (op.d & NULLDATA) return R_fail();
+        if ((op.d & NULLDATA) && !((kind == K_QUEUE || kind == K_STACK) && api == 2)) return R_fail();     // pushint takes no data pointer
         Bytes v = w->value(op);
         if (v.empty()) return R_fail();
         if (max > 0 && n >= max) return R_fail();
@@ -343,7 +351,7 @@ Result ListModel::apply(const Op &op) {
             if (api == 0) pos = 0; else if (api == 1) pos = (long)n - 1;
             else { pos = idx; if (pos < 0) pos = (long)n + pos; }
         } else {
-            if (api == 1 && !(n > 0 && q[0].size() >= 1)) a2 = 0;
+            if (api == 1 && !(n > 0 && q[0].size() >= 1 && q[0][q[0].size() - 1] == '\0')) a2 = 0;
             if (api == 2 && n > 0 && q[0].size() != sizeof(int64_t)) a2 = 0;
             if (a2 == 3) { pos = idx; if (pos < 0) pos = (long)n + pos; } else pos = 0;
             if (a2 == 2) {
@@ -354,7 +362,6 @@ Result ListModel::apply(const Op &op) {
         }
         if (pos < 0 || pos >= (long)n) return R_fail();
         Bytes v = q[pos];
-        if (kind != K_LIST && a2 == 1) v[v.size() - 1] = '\0';      // popstr/getstr force a terminator
         if (pop) q.erase(q.begin() + pos);
         return R_ok(encs(v));
     }
@@ -369,13 +376,18 @@ Result ListModel::apply(const Op &op) {
     case L_SIZE: return R_ok(num((long long)n));
     case L_DATASIZE: { size_t s = 0; for (auto &e : q) s += e.size(); return R_ok(num((long long)s)); }
     case L_TOARRAY: {
-        if (n == 0) return R_fail("0");
+        if (n == 0) return R_fail();
         Bytes all; for (auto &e : q) all += e;
         return R_ok(encs(all));
     }
     case L_TOSTRING: {
         if (n == 0) return R_fail();
-        Bytes all; for (auto &e : q) all += (e[e.size() - 1] == '\0') ? e.substr(0, e.size() - 1) : e;
+        Bytes all;
+        for (auto &e : q) {
+            size_t z = e.find('\0');
+            if (z != Bytes::npos && z != e.size() - 1) return R_ok("unspecified");
+            all += z == Bytes::npos ? e : e.substr(0, e.size() - 1);
+        }
         all += '\0';
         return R_ok(encs(all));
     }
